@@ -272,27 +272,71 @@ Section Quiet.
       apply Al; simpl; try lia; intros c [].
   Qed.
 
+  (* callbacks that read nothing from the heap and allocate at most one container of
+     non-references (FAppended copies the elements of its argument: excluded) *)
+  Definition qfn (f : fn) : Prop :=
+    match f with
+    | FId | FAddInt _ | FRaise | FConst _ => True
+    | FNewList xs => forall x, In x xs -> forall c, x <> VRef c
+    | FDictOf _ x => forall c, x <> VRef c
+    | FAppended _ => False
+    end.
+  Definition oqfn (o : option fn) : Prop := match o with Some f => qfn f | None => True end.
+
+  Lemma apply_fn_quiet f v F :
+    qfn f -> astable F ->
+    T (IF F) (apply_fn f v) (fun r h => IF F h /\ (r = v \/ loose h r)) (IF F).
+  Proof.
+    intros Hq SF. unfold apply_fn.
+    eapply T_bind; [apply T_hpure; [apply hpure_tick|auto]|]. intros ?.
+    assert (Al : forall o, shape o < 3 -> norefs o ->
+              T (IF F) (l <- alloc o ;; ret (VRef l)) (fun r h => IF F h /\ (r = v \/ loose h r)) (IF F)).
+    { intros o S Nr. eapply T_bind; [|intros l; apply T_ret; intros h H; exact H].
+      eapply T_pre; [|apply T_alloc]. intros h H. cbv beta.
+      destruct (IF_alloc F h o SF S Nr H) as [H1 H2]. split; auto. }
+    destruct f; simpl in Hq.
+    - apply T_ret. auto.
+    - destruct v; try (apply T_fail; auto); apply T_ret; intros h H; split; auto; right; exact I.
+    - destruct v0; try (apply T_fail; auto); apply T_ret; intros h H; split; auto; right; exact I.
+    - apply Al; [simpl; lia|]. intros c Hi. exact (Hq _ Hi c eq_refl).
+    - contradiction.
+    - apply Al; [simpl; lia|]. intros c Hi. simpl in Hi. destruct Hi as [E|[E|[]]]; [discriminate|].
+      exact (Hq c E).
+    - apply T_fail. auto.
+  Qed.
+
   (* the mutate_value calls made for leaf collection attributes and their items *)
   Definition prep_plain (p : prep) : Prop :=
     match p with
     | PNone => True
-    | PAttr _ => False
-    | PItem sp _ => a_prepare_item sp = None /\ scalar_ty (item_type (a_ty sp)) = true
+    | PAttr f => qfn f
+    | PItem sp _ => oqfn (a_prepare_item sp) /\ scalar_ty (item_type (a_ty sp)) = true
+    end.
+
+  Definition xf_plain (x : option (xform * option (attr_spec * loc))) : Prop :=
+    match x with
+    | None => True
+    | Some (XFn f, _) => qfn f
+    | Some (XPrepItem, Some (sp, _)) => oqfn (a_prepare_item sp) /\ scalar_ty (item_type (a_ty sp)) = true
+    | Some (XPrepItem, None) => True
     end.
 
   Definition mv_plain (m : mv_args) : Prop :=
-    prep_plain (mv_prepare m) /\ mv_attrs m = None /\ mv_transform m = None /\
+    prep_plain (mv_prepare m) /\ mv_attrs m = None /\ xf_plain (mv_transform m) /\
     mv_attr_transforms m = [] /\
     exists t ety, mv_ctor m = Some (CtorTy t) /\ ty_plain t /\ mv_expected m = Some ety.
 
   Lemma hpure_str_key v : hpure (str_key_to_aid v).
   Proof. destruct v; simpl; hpgo. Qed.
 
-  Lemma prepare_item_plain rec sp inst item :
-    a_prepare_item sp = None -> scalar_ty (item_type (a_ty sp)) = true ->
-    prepare_item ct rec sp inst item = ret item.
+  Lemma prepare_item_quiet rec sp inst item F :
+    oqfn (a_prepare_item sp) -> scalar_ty (item_type (a_ty sp)) = true -> astable F ->
+    T (IF F) (prepare_item ct rec sp inst item) (fun r h => IF F h /\ (r = item \/ loose h r)) (IF F).
   Proof.
-    intros Hp Hs. unfold prepare_item. rewrite Hp. destruct (scalar_nospec _ Hs) as [_ ->]. reflexivity.
+    intros Hp Hs SF. unfold prepare_item. destruct (scalar_nospec _ Hs) as [_ ->].
+    eapply T_bind with (Q := fun r h => IF F h /\ (r = item \/ loose h r)).
+    - destruct (a_prepare_item sp) as [f|]; [apply apply_fn_quiet; auto|apply T_ret; auto].
+    - intros item1. apply T_ret. auto.
   Qed.
 
   Definition mv_res (m : mv_args) (r : val) (h : heap_t) : Prop :=
@@ -312,13 +356,14 @@ Section Quiet.
     assert (V0 : forall h, value0 = old \/ value0 = new \/ loose h value0).
     { intro h. unfold value0. destruct use_new; auto. destruct repl; auto. right; right; exact I. }
     (* step 1: prepare *)
-    eapply T_bind with (Q := fun value1 h => IF F h /\ value1 = value0).
+    eapply T_bind with (Q := fun value1 h => IF F h /\ (value1 = value0 \/ loose h value1)).
     { destruct (if use_new || repl then prepare else PNone) eqn:Ep.
       - apply T_ret; auto.
-      - exfalso. destruct (use_new || repl); [subst prepare; exact Hprep|discriminate].
-      - assert (Hp : a_prepare_item sp = None /\ scalar_ty (item_type (a_ty sp)) = true).
+      - assert (Hq : qfn f) by (destruct (use_new || repl); [subst prepare; exact Hprep|discriminate]).
+        apply apply_fn_quiet; auto.
+      - assert (Hp : oqfn (a_prepare_item sp) /\ scalar_ty (item_type (a_ty sp)) = true).
         { destruct (use_new || repl); [subst prepare; exact Hprep|discriminate]. }
-        destruct Hp as [Hp1 Hp2]. rewrite prepare_item_plain by auto. apply T_ret; auto. }
+        destruct Hp as [Hp1 Hp2]. apply prepare_item_quiet; auto. }
     intros value1.
     eapply T_bind; [apply T_get_heap|]. intros h0. cbv zeta.
     (* steps 3/4 *)
@@ -341,13 +386,28 @@ Section Quiet.
         + eapply T_pre with (P := IF F); [tauto|].
           eapply T_bind; [apply instantiate_quiet; auto|]. intros v.
           apply T_ret. intros h [H L]. simpl. auto.
-        + apply T_ret. intros h [_ [H ->]]. simpl. auto. }
+        + apply T_ret. intros h [_ H]. simpl. exact H. }
     intros [[value2 safe2] used]. cbv beta iota. cbn [fst].
     eapply T_bind with (Q := fun (r5 : val * bool) h => IF F h /\ (fst r5 = value0 \/ loose h (fst r5))).
     { apply T_ret. auto. }
     intros [value3 safe3]. cbv beta iota. cbn [fst].
+    (* step 6: transform *)
     eapply T_bind with (Q := fun value4 h => IF F h /\ (value4 = value0 \/ loose h value4)).
-    { apply T_ret. auto. }
+    { set (G := fun h => F h /\ (value3 = value0 \/ loose h value3)).
+      assert (SG : astable G).
+      { intros h o S Nr [Fh D]. split; [apply SF; auto|].
+        destruct D as [E|L]; [left; exact E|right; now apply (proj1 (cstable_loose value3))]. }
+      assert (Fin : forall r h, IF G h /\ (r = value3 \/ loose h r) ->
+                                IF F h /\ (r = value0 \/ loose h r)).
+      { intros r h [[I0 [Fh D]] [->|L]]; (split; [split; auto|]); auto. }
+      assert (Ini : forall h, IF F h /\ (value3 = value0 \/ loose h value3) -> IF G h).
+      { intros h [[I0 Fh] D]. split; auto. split; auto. }
+      assert (Er : forall h, IF G h -> IF F h) by (intros h [I0 [Fh _]]; split; auto).
+      destruct xf as [[[f|] oi]|]; [| |apply T_ret; auto].
+      - unfold apply_xform. eapply T_conseq; [apply (apply_fn_quiet f value3 G Hxf SG)|exact Ini|exact Fin|exact Er].
+      - destruct oi as [[sp inst]|]; [|apply T_fail; tauto].
+        destruct Hxf as [Hp1 Hp2]. unfold apply_xform.
+        eapply T_conseq; [apply (prepare_item_quiet rec sp inst value3 G Hp1 Hp2 SG)|exact Ini|exact Fin|exact Er]. }
     intros value4. apply T_ret. intros h [H [E|L]]; (split; [exact H|]); [rewrite E; apply V0|right; right; exact L].
   Qed.
 
@@ -489,8 +549,10 @@ Section Lists.
                    (Some (ctor_of_ty (item_type (a_ty sp)))) (Some (item_type (a_ty sp)))
                    (io_transform io) (io_attr_transforms io) false).
   Proof.
-    intros (Ht & Se & _ & _ & Hpi) (H1 & H2 & H3). unfold mv_plain. simpl.
-    rewrite Ht. simpl. split; [split; auto; now rewrite Ht|]. split; auto. split; auto. split; auto.
+    intros (Ht & Se & _ & _ & Hpi) (H1 & H2 & H3). unfold mv_plain.
+    cbn [mv_prepare mv_attrs mv_transform mv_attr_transforms mv_ctor mv_expected prep_plain].
+    rewrite Hpi, H2, Ht. cbn [item_type oqfn xf_plain].
+    split; [split; [exact I|exact Se]|]. split; auto. split; [exact I|]. split; auto.
     exists e, e. unfold ctor_of_ty. destruct (scalar_nospec _ Se) as [-> _].
     split; auto. split; auto. destruct e; simpl in *; auto; discriminate.
   Qed.
